@@ -112,6 +112,13 @@ STALE_TOK = 110    # stale tmp_i had content [STALE_TOK + i] before
 W_MODES = set('wxa+')
 
 
+def deferred(ck: Any) -> '_Deferred':
+    base = getattr(ck, '_ck', ck)            # a _Keyed wrapper stands for its Ck
+    if not hasattr(base, '_c12_deferred'):
+        base._c12_deferred = _Deferred(base)
+    return base._c12_deferred
+
+
 def is_big(ck: Ck) -> bool:
     """Thorough budgets: the thorough tier, or a broken tie for which no failing input has been found yet (the budgets
     are escalated in order to find one; once the search has a concrete violation the remaining stages run with the
@@ -743,7 +750,7 @@ def single_campaign(ck: Ck, scs: list[dict], do_model: bool) -> None:
     for si, sc in enumerate(scs):
         _single_scenario(ck, work, si, sc, do_model, cases)
     if do_model:
-        eval_cases(ck, cases, 'single')
+        deferred(ck).submit(eval_cases, cases, 'single')
 
 
 class _Keyed:
@@ -1104,8 +1111,9 @@ def _class_runs(ck: Any, sc: dict, fresh: Callable[[str], str], ops0: list[dict]
 def eval_cases(ck: Ck, cases: list[dict], tag: str) -> None:
     bad: list[dict] = []
     n = 0
-    for lo in range(0, len(cases), 700):
-        part = cases[lo:lo + 700]
+    ch = 700 if ck.thorough else 5000
+    for lo in range(0, len(cases), ch):
+        part = cases[lo:lo + ch]
         vals = ck.coq_eval(IMPORTS, [coq_list(c['coq'] for c in part)], name=f'aw_{tag}', preamble=PRE)
         if vals is None:
             ck.obligation(f'correspondence:{tag}', False, 'model could not be evaluated')
@@ -1661,15 +1669,16 @@ def history_campaign(ck: Ck, do_model: bool) -> None:
                     ck.violation(f'reuse:foreign-file-touched-at-crash:{at}:{pos}', f'{n0} changed', rp)
     ck.extra['histories'] = {'scenarios': len(hss), 'words': sorted({h['word'] for h in hss})}
     if do_model and cases:
-        eval_hist_cases(ck, cases)
+        deferred(ck).submit(eval_hist_cases, cases)
 
 
 def eval_hist_cases(ck: Ck, cases: list[dict]) -> None:
     bad: list[dict] = []
     abad: list[dict] = []
     n = na = 0
-    for lo in range(0, len(cases), 250):
-        part = cases[lo:lo + 250]
+    ch = 250 if ck.thorough else 5000
+    for lo in range(0, len(cases), ch):
+        part = cases[lo:lo + ch]
         vals = ck.coq_eval(IMPORTS, [coq_list(c['coq'] for c in part),
                                      coq_list((c['attrs'][0] if c['attrs'] else '[]') for c in part)],
                            name='aw_history', preamble=PRE)
@@ -1987,7 +1996,7 @@ def two_writer_campaign(ck: Ck, do_model: bool) -> None:
         ck.extra.setdefault('interleavings', {})[tag] = {
             'executed': nrun, 'exhaustive': exhaustive, 'boundary_pairs': npairs, 'ops': [n1, n2], 'fault_runs': nfault}
     if do_model and cases:
-        eval_cases2(ck, cases)
+        deferred(ck).submit(eval_cases2, cases)
 
 
 def product_campaign(ck: Ck, do_model: bool = False) -> None:
@@ -2043,7 +2052,7 @@ def product_campaign(ck: Ck, do_model: bool = False) -> None:
                         product_case(word, A, B, init, r, cases)
         ck.extra.setdefault('product', {})[word + ('-text' if text else '')] = {'runs': nrun, 'ops': [n1, n2]}
     if do_model and cases:
-        eval_product_cases(ck, cases)
+        deferred(ck).submit(eval_product_cases, cases)
 
 
 def product_case(word: str, A: dict, B: dict, init: dict[str, bytes], r: dict, cases: list[dict]) -> None:
@@ -2103,8 +2112,9 @@ def eval_product_cases(ck: Ck, cases: list[dict]) -> None:
     bad: list[dict] = [{'what': c['what']} for c in cases if c['coq'] is None]
     good = [c for c in cases if c['coq'] is not None]
     n = 0
-    for lo in range(0, len(good), 600):
-        part = good[lo:lo + 600]
+    ch = 600 if ck.thorough else 5000
+    for lo in range(0, len(good), ch):
+        part = good[lo:lo + ch]
         vals = ck.coq_eval(IMPORTS, [coq_list(c['coq'] for c in part)], name='aw_product', preamble=PRE)
         if vals is None:
             ck.obligation('correspondence:product', False, 'model could not be evaluated')
@@ -2201,8 +2211,9 @@ def _data(s: dict) -> bytes:
 def eval_cases2(ck: Ck, cases: list[dict]) -> None:
     bad = []
     n = 0
-    for lo in range(0, len(cases), 900):
-        part = cases[lo:lo + 900]
+    ch = 900 if ck.thorough else 5000
+    for lo in range(0, len(cases), ch):
+        part = cases[lo:lo + ch]
         vals = ck.coq_eval(IMPORTS, [coq_list(c['coq'] for c in part)], name='aw_two', preamble=PRE)
         if vals is None:
             ck.obligation('correspondence:two-writers', False, 'model could not be evaluated')
@@ -2729,6 +2740,133 @@ def class_table_correspondence(ck: Ck) -> None:
         ck.extra['class_table_disagreements'] = bad[:8]
 
 
+class _Pending(Exception):
+    """Raised by the recording pass of _Deferred when the function reaches its first model evaluation."""
+
+
+class _Deferred:
+    """Model evaluations (coqc, vm_compute: 2-8 s of CPU each) in the background.
+
+    `submit(fn, *args)` runs `fn(proxy, *args)` up to its first `coq_eval` request, starts coqc for that request as a
+    separate PROCESS (no thread: the campaigns fork) and returns; `join()` runs `fn` again, this time handing it the
+    output of that process (any further request of the same call is evaluated synchronously), so everything `fn` reports
+    (obligations, counts, broken ties) is reported exactly as before, only later.  `fn` must not do anything that may
+    not be repeated before its first request (the eval_* functions only build lists).  Joins happen at fixed points of
+    the run (after the stage FOLLOWING the one that submitted), so results do not depend on timing."""
+
+    def __init__(self, ck: Ck) -> None:
+        self.ck = ck
+        self.jobs: list[dict] = []
+
+    def submit(self, fn: Callable, *args: Any) -> None:
+        import subprocess
+        from harness.common import ROCQ, _unlimit_stack
+        ck, outer = self.ck, self
+
+        class Rec:
+            def __getattr__(self, name: str) -> Any:
+                return getattr(ck, name)
+
+            def coq_eval(self, imports, exprs, name='eval', timeout=600, preamble=''):
+                body = ''.join(f'Require Import {i}.\n' for i in imports) + preamble + '\n'
+                body += 'Set Printing Width 1000000.\nSet Printing Depth 1000000.\n'
+                for e in exprs:
+                    body += f'Eval vm_compute in ({e}).\n'
+                d = ck.scratch / f'coq_{name}_bg{len(os.listdir(ck.scratch))}'
+                d.mkdir()
+                (d / f'{name}.v').write_text(body)
+                fh = open(d / 'out.txt', 'w')
+                proc = subprocess.Popen(['coqc', '-Q', str(ROCQ), 'SV', '-Q', str(d), 'Scratch', str(d / f'{name}.v')],
+                                        stdout=fh, stderr=subprocess.STDOUT, cwd=d, preexec_fn=_unlimit_stack)
+                outer.jobs.append(dict(fn=fn, args=args, key=(tuple(imports), tuple(exprs), preamble), proc=proc, fh=fh,
+                                       out=d / 'out.txt', name=name, timeout=timeout))
+                raise _Pending()
+        try:
+            fn(Rec(), *args)          # completes only when it needs no evaluation at all (then its reports are made)
+        except _Pending:
+            pass
+
+    def join(self, keep: int = 0) -> None:
+        """Finish all submitted calls but the `keep` most recent ones, in the order of submission."""
+        import subprocess
+        from harness.common import _split_evals
+        ck = self.ck
+        while len(self.jobs) > keep:
+            job = self.jobs.pop(0)
+
+            class Play:
+                def __getattr__(self, name: str) -> Any:
+                    return getattr(ck, name)
+
+                def coq_eval(self, imports, exprs, name='eval', timeout=600, preamble='', job=job):
+                    if job.get('used') or (tuple(imports), tuple(exprs), preamble) != job['key']:
+                        return ck.coq_eval(imports, exprs, name=name, timeout=timeout, preamble=preamble)
+                    job['used'] = True
+                    try:
+                        rc = job['proc'].wait(timeout=job['timeout'])
+                    except subprocess.TimeoutExpired:
+                        job['proc'].kill()
+                        rc = 124
+                    job['fh'].close()
+                    out = job['out'].read_text() if rc != 124 else f'coqc timeout after {job["timeout"]}s'
+                    if rc != 0:
+                        ck.notes.append(f'coq_eval {name} failed: {out[-1500:]}')
+                        return None
+                    vals = _split_evals(out)
+                    if len(vals) != len(exprs):
+                        ck.notes.append(f'coq_eval {name}: expected {len(exprs)} values, got {len(vals)}')
+                        return None
+                    return vals
+            try:
+                job['fn'](Play(), *job['args'])
+            finally:
+                if job['proc'].poll() is None:
+                    job['proc'].kill()
+
+
+class _HygieneInBackground:
+    """What Ck.hygiene does (harness.common.scan_hygiene over every .v file of the development: 13 s of CPU), in a separate
+    process started after the Gen file is written and collected at the end of the run; reported under the same name."""
+
+    def __init__(self, ck: Ck) -> None:
+        import subprocess
+        import sys
+        self.ck = ck
+        ck._hygiene_done = True           # Ck.build would otherwise run the scan synchronously
+        self.out = ck.scratch / 'hygiene_bg.json'
+        self.fh = open(self.out, 'w')
+        self.proc = subprocess.Popen([sys.executable, '-c',
+                                      'import json, harness.common as h; print(json.dumps(h.scan_hygiene()))'],
+                                     stdout=self.fh, stderr=subprocess.STDOUT)
+        self.done = False
+
+    def join(self) -> None:
+        import json
+        import subprocess
+        if self.done:
+            return
+        self.done = True
+        ck = self.ck
+        try:
+            rc = self.proc.wait(timeout=900)
+        except subprocess.TimeoutExpired:
+            self.proc.kill()
+            rc = 124
+        self.fh.close()
+        txt = self.out.read_text()
+        try:
+            bad = json.loads(txt.strip().splitlines()[-1]) if rc == 0 else None
+        except Exception:
+            bad = None
+        if bad is None:
+            from harness.common import scan_hygiene
+            bad = scan_hygiene()          # the background scan did not come back: do it here
+        ck.obligation('hygiene:no_admitted_axiom_parameter_or_unchecked_flag', not bad,
+                      'all .v files scanned (comments removed): none found' if not bad else '; '.join(bad[:20]))
+        if bad:
+            ck.tie_broken.append('hygiene: ' + '; '.join(bad[:5]))
+
+
 class _TheoremsInBackground:
     """What ck.theorems does (Print Assumptions of every theorem of Props/C12.v: one coqc process, 8-40 s on a loaded
     machine), started as a separate PROCESS right after the build and collected at the end of the run, so that it costs
@@ -2830,6 +2968,7 @@ def run(ck: Ck) -> None:
     ]
     ok_t = ck.translate('AtomicWriter_gen', c12_atomic.translate)
     side = ck.extra.get('translated', {}).get('AtomicWriter_gen', {})
+    hygiene = _HygieneInBackground(ck) if ok_t else None
     built = ok_t and ck.build(['Props/C12.vo', 'Gen/AtomicWriter_gen.vo'])
     background = None
     if built:
@@ -2921,15 +3060,27 @@ def run(ck: Ck) -> None:
         _campaigns(ck, built, background)
     finally:
         os.chdir(cwd0)
+        t1 = time.time()
+        if hygiene is not None:
+            hygiene.join()
         if background is not None:
-            t1 = time.time()
             background.join()
-            ck.extra.setdefault('stage_seconds', {})['wait-for-print-assumptions'] = round(time.time() - t1, 1)
+        ck.extra.setdefault('stage_seconds', {})['wait-for-hygiene-scan-and-print-assumptions'] = round(time.time() - t1, 1)
 
 
 def _campaigns(ck: Ck, built: bool, background: '_TheoremsInBackground | None' = None) -> None:
     import time
-    stage: dict[str, float] = {}
+
+    class _Stages(dict):
+        """wall seconds per stage; next to it the CPU seconds of this process and its reaped children (wall time says
+        little on a loaded machine)."""
+        def __setitem__(self, k: str, v: float) -> None:
+            super().__setitem__(k, v)
+            t = os.times()
+            now = round(t.user + t.system + t.children_user + t.children_system, 1)
+            ck.extra.setdefault('stage_cpu_seconds', {})[k] = round(now - getattr(self, 'last', 0.0), 1)
+            self.last = now
+    stage: dict[str, float] = _Stages()
     ck.extra['stage_seconds'] = stage
     stage['translate+build+obligations'] = round(time.time() - ck.t0, 1)
     t1 = time.time()
@@ -2943,6 +3094,7 @@ def _campaigns(ck: Ck, built: bool, background: '_TheoremsInBackground | None' =
     stage['single'] = round(time.time() - t1, 1)
     t1 = time.time()
     history_campaign(ck, bool(built))
+    deferred(ck).join(keep=1)
     stage['history'] = round(time.time() - t1, 1)
     t1 = time.time()
     try:
@@ -2951,13 +3103,18 @@ def _campaigns(ck: Ck, built: bool, background: '_TheoremsInBackground | None' =
         ck.obligation('bsp-sample', False, f'could not prepare the BSP sample: {e!r}')
         bscs = []
     single_campaign_bsp(ck, bscs, bool(built))
+    deferred(ck).join(keep=1)
     stage['bsp'] = round(time.time() - t1, 1)
     t1 = time.time()
     two_writer_campaign(ck, bool(built))
+    deferred(ck).join(keep=1)
     stage['two'] = round(time.time() - t1, 1)
     t1 = time.time()
     product_campaign(ck, bool(built))
     stage['product'] = round(time.time() - t1, 1)
+    t1 = time.time()
+    deferred(ck).join()
+    stage['wait-for-model-evaluations'] = round(time.time() - t1, 1)
     reuse_keys = [v['key'] for v in ck.violations if v['key'].startswith('reuse:')]
     keys = {v['key'].removeprefix('bsp-save:').removeprefix('reuse:') for v in ck.violations}
     class_keys = {k for k in keys if k.startswith('errclass:')}
